@@ -229,6 +229,68 @@ func ZZVerifC06TwoCommits() {
 	nd.Reach("C06/twocommits-end")
 }
 
+// ZZVerifC06Spelled: an operation given a non-canonical spelling of an
+// existing node (/a, ./a, a/, a/., /a/x, ./g, a/../g), then a copy out of that
+// region to a fresh name, then Commit: the journals are keyed like the reads
+// - what was removed under one spelling is gone under every spelling, also as
+// a copy source - and the remote ends equal to the twin.
+func ZZVerifC06Spelled() {
+	remote := reftree.NewFS(zzInitial())
+	b := zzInitial()
+	c, err := fscache.NewMemCache(remote)
+	nd.Assume(err == nil)
+	p := []string{"/a", "./a", "a/", "a/.", "/a/x", "./g", "a/../g", "/a/d/"}[nd.Choose("spelling", 8)]
+	segs, _ := reftree.Norm(p)
+	hist := ""
+	switch nd.Choose("op", 4) {
+	case 0:
+		hist = "removeall"
+		if c.RemoveAll(p) == nil {
+			nd.Assume(b.RemoveAll(segs) || b.Find(segs) == nil)
+		}
+	case 1:
+		hist = "remove"
+		if c.Remove(p) == nil {
+			nd.Assume(b.Remove(segs))
+		}
+	case 2:
+		hist = "writefile"
+		if c.WriteFile(p, []byte("w"), filesystem.DefaultUnixFileMode) == nil {
+			nd.Assume(b.WriteFile(segs, []byte("w")))
+		}
+	default:
+		hist = "mkdirall"
+		if c.MkdirAll(p, filesystem.DefaultUnixDirMode) == nil {
+			nd.Assume(b.MkdirAll(segs))
+		}
+	}
+	src := []string{"a", "a/x", "g", "a/d"}[nd.Choose("source", 4)]
+	ssegs, _ := reftree.Norm(src)
+	kind := nd.Choose("copy", 3)
+	switch kind {
+	case 0:
+		err = c.Copy(src, "n")
+	case 1:
+		err = c.CopyFile(src, "n")
+	default:
+		err = c.CopyDirectory(src, "n")
+	}
+	if err == nil {
+		t := b.Find(ssegs)
+		// nothing can be copied from a node that does not exist any more
+		nd.Assert(t != nil, "C06/spelled/copy-of-a-removed-source-accepted/"+hist)
+		if t == nil {
+			return
+		}
+		nd.Assume(kind == 0 || (kind == 1) == !t.Dir)
+		nd.Assume(b.CopyTo(t, []string{"n"}))
+	}
+	nd.Assert(reftree.Same(c, b, nil), "C06/spelled/view-before-commit/"+hist)
+	nd.Assert(c.Commit() == nil, "C06/spelled/commit-succeeds/"+hist)
+	nd.Assert(reftree.Same(remote, b, nil), "C06/spelled/commit-tree/"+hist)
+	nd.Reach("C06/spelled-end")
+}
+
 func zzCommit(k, f int) {
 	r0 := zzInitial()
 	remote := reftree.NewFS(zzInitial())
